@@ -11,7 +11,11 @@ import (
 //   batch, conc: task settings (concrete per run; batch also bounds the blocks materialised)
 func ZZ_C01_Step(k, batch, conc int) {
 	zzReset()
-	zzvrf.Unwind(batch + 3)
+	if conc > batch {
+		zzvrf.Unwind(conc + 3)
+	} else {
+		zzvrf.Unwind(batch + 3)
+	}
 	src := &zzSource{withHash: true}
 	pre := zzPreState("s", "ig", k, k)
 	start := zzvrf.U64("start")
@@ -62,12 +66,22 @@ func ZZ_C01_Step(k, batch, conc int) {
 		zzvrf.Assert(post.lo == lo0, "blocks-below-untouched")
 	}
 	// partition handed to the source: no overlap, no gap, no wrap
-	var next = p0 + 1
+	// the goroutines may run in any order: the partition is a property of the set:
+	// every range starts at p0+1 or where another one ends, starts are distinct,
+	// none is empty, and the lengths add up to the blocks inserted
 	var total uint64
-	for _, g := range src.getLog {
-		zzvrf.Assert(g[0] == next, "fetch-partitions-contiguous")
+	log := src.getLog
+	for i, g := range log {
 		zzvrf.Assert(g[1] >= 1, "fetch-partition-non-empty")
-		next = g[0] + g[1]
+		linked := g[0] == p0+1
+		for k, h := range log {
+			if k != i {
+				linked = zzvrf.Or(linked, h[0]+h[1] == g[0])
+				zzvrf.Assert(h[0] != g[0], "fetch-partitions-disjoint")
+			}
+		}
+		zzvrf.Assert(linked, "fetch-partitions-contiguous")
+		zzvrf.Assert(g[0]+g[1] > g[0], "fetch-range-does-not-wrap")
 		total += g[1]
 	}
 	zzvrf.Assert(total == uint64(d), "fetched-equals-inserted")
